@@ -230,8 +230,10 @@ class ConnRun:
 
         self.inject("UserFinish", {"login": login}, fn)
 
-    def ev_handshake(self, res: str):
+    def ev_handshake(self, res: str, extra: list | None = None):
+        """extra: application messages the device sends in the SAME chunk as its handshake reply"""
         w = self.w
+        extra = extra or []
 
         def fn():
             c, tr = w.codec, w.tr
@@ -241,6 +243,7 @@ class ConnRun:
             if res == "ok":
                 # the server hello may or may not announce the device name
                 data = (c.noise_hello(name_override=None) if getattr(self, "noise_noname", False) else c.noise_hello()) + c.noise_handshake()
+                data += b"".join(c.encode(*device_message(m)) for m in extra)
             elif res == "BadNameAPIError":
                 if w.params.expected_name is None:
                     return False
@@ -251,7 +254,7 @@ class ConnRun:
                 data = c.noise_hello() + c.nd.handshake_error_frame("Internal error")
             return tr.feed(data)
 
-        self.inject("EnvHandshake", {"res": res}, fn)
+        self.inject("EnvHandshake", {"res": res, "ms": [full_msg(m) for m in extra] if res == "ok" else []}, fn)
 
     def ev_chunk(self, ms: list[dict]):
         w = self.w
@@ -826,3 +829,29 @@ DEFAULT_CFGS = [
     dict(noise=False, exp="none", login=False, K=20000),
     dict(noise=True, exp="dev", login=True, K=20000),
 ]
+
+
+# ------------------------------------------------------------------- C03 (connection level)
+def c03_conn_family(rng: random.Random) -> list:
+    """Application frames in the same chunk as the Noise handshake reply (or right behind it), observed by a subscriber that
+    listens on the connection from before the handshake; nothing is written before the handshake is complete."""
+    out = []
+    extras = [[{"k": "A", "key": 1}], [{"k": "B"}, {"k": "A", "key": 2}], [{"k": "unknown", "id": 250}, {"k": "A", "key": 1}], [{"k": "pingreq"}, {"k": "A", "key": 1}]]
+    for exp in ("none", "dev"):
+        for login in (False, True):
+            cfg = dict(noise=True, exp=exp, login=login, K=20000)
+            hello = [{"k": "hello", "major": 1, "name": "dev"}] + ([{"k": "connect", "invalid": False}] if login else [])
+            for ex in extras:
+                for mode in ("same", "next", "later"):
+                    for g in ([("idle",)], [("iter", 1)], []):
+                        st = [("ev", "start"), ("idle",), ("ev", "resolve", "ok"), ("idle",), ("ev", "tcp", "ok"), ("idle",), ("ev", "sub", 9, "*", "none"),
+                              ("ev", "finish", login)] + g
+                        if mode == "same":
+                            st += [("ev", "handshake", "ok", ex)]
+                        elif mode == "next":
+                            st += [("ev", "handshake", "ok"), ("ev", "chunk", ex)]
+                        else:
+                            st += [("ev", "handshake", "ok"), ("iter", 1), ("ev", "chunk", ex)]
+                        st += [("idle",), ("ev", "chunk", hello + ex), ("idle",), ("ev", "chunk", ex), ("idle",), ("tick",)]
+                        out.append((cfg, st))
+    return out
